@@ -33,7 +33,7 @@ def minMsgSizeLib : Nat := 512
 def optFixedLen : Nat := 11
 def optOptionHdrLen : Nat := 4
 def parsewire_cookie_lens_ok : List Nat := [8, 9, 10, 11, 12, 13, 14, 15, 16, 17, 18, 19, 20, 21, 22, 23, 24, 25, 26, 27, 28, 29, 30, 31, 32, 33, 34, 35, 36, 37, 38, 39, 40]
-def parsewire_keepalive_lens_ok : List Nat := [0, 1, 2]
+def parsewire_keepalive_lens_ok : List Nat := [0, 2]
 def parsewire_max_label : Nat := 63
 def parsewire_max_name : Nat := 255
 def parsewire_option_codes_ok : List Nat := [3, 8, 10, 12]
